@@ -40,6 +40,33 @@ CHECKS = {
  'C11': dict(cat='exploration', tech='differential twin: fresh element given only the survivors (verdict/text, order, acceptance vector)',
    text='Every history with removals whose operations all succeed is compared with a fresh element to which only the surviving children were added in the same relative order.',
    note='a twin that refuses a survivor is inconclusive (counted), that is C12 territory', ref='7 C11'),
+ 'C12': dict(cat='exploration', tech='API recorder; oracles = unique-arrangement enumeration and compatibility (sub-multiset) search in the reference DFA; all permutations of short unique multisets',
+   text='All permutations (<=120, sampled beyond) of every multiset from words <=4 that has exactly one reference arrangement are added to a fresh element: acceptance, the arrangement, insertion order of same-named children (by identity) and the final check are observed; every rejected addition after accepted additions only is judged by the compatibility oracle. Exhaustive over permutations inside the bound.',
+   note='trusts the reference DFAs', ref='7 C12'),
+ 'C13': dict(cat='exploration', tech='snapshots of instance A around every operation on instance B, solo-replay twin, pristine forked-child fingerprints of templates and fresh-instance behaviour, object-graph disjointness walk',
+   text='Interleavings of 2-4 hostile histories over instances of one class (plus deep copies) in one process: every other instance must be unchanged after each operation and equal to a solo replay at the end; container graphs must be pairwise disjoint and disjoint from the shared template; template and fresh-instance behaviour fingerprints must equal those of a pristine forked child.',
+   note='pristine fingerprints are recomputed on every run from the current tree', ref='7 C13'),
+ 'C14': dict(cat='exploration', tech='text equality of original vs deepcopy, snapshots around the copy, lock-step xsd_check walk, cross-visibility of later mutations',
+   text='Reference-grammar trees built through the API or the parser and perturbed after construction (late-set / overwritten / removed attributes, changed values, xsd_check off on random nodes) are deep-copied; copy and original must serialise identically (or refuse identically), the original must be untouched, flags preserved, and mutations of either must not show in the other.',
+   note='trees the builder refuses are skipped and counted', ref='7 C14'),
+ 'C15': dict(cat='exploration', tech='differential twin across the two API surfaces (shortcut vs explicit), step-by-step comparison',
+   text='Every container class x every schema child runs a fixed read/set/replace/remove script through xml_* shortcuts and through add_child/replace_child/remove/value_; every complex class x every attribute compares keyword vs dot assignment and dot reads; seeded mixed sequences are replayed on both surfaces.',
+   note='explicit translation = the one the README documents', ref='7 C15'),
+ 'C16': dict(cat='exploration', tech='xml.etree recovery of XML-Char strings in every text / string attribute position, repeated-call and subtree equality, differential twin without the serialisation calls',
+   text='A battery plus seeded strings over the XML Char range are placed in every text and string-typed attribute position; well-formedness, exact recovery, determinism and subtree-vs-parent equality are checked; histories with serialisations at every position are compared with the same histories without them.',
+   note='xml.etree is the standard parser; only accepted strings are judged', ref='7 C16'),
+ 'C17': dict(cat='fault_enumeration', tech='fault enumeration: every node failing in turn x prior destination states; exception injected at every library LINE event inside write() (sys.monitoring); audit hook on open; subprocesses under ASCII/emulated Latin-1/cp1252 defaults; EncodingWarning as error; strace (thorough)',
+   text='Every node of generated valid scores is made to fail its check in turn and write() is called for each prior state of the destination (bytes compared); a private exception is raised at every library line executed inside write() before the text exists; successful writes are compared byte-for-byte with declaration + to_string() in UTF-8; the import/write/parse scenario is repeated under each default encoding.',
+   note='Latin-1/cp1252 defaults are emulated (only C/POSIX/C.utf8 locales exist in the image); faults after the text exists are out of scope', ref='7 C17'),
+ 'C18': dict(cat='exploration', tech='differential twin checked vs unchecked + exception classifier',
+   text='Unchecked instances of every class get arbitrary children (own/foreign names, long runs), removals and replacements: nothing may raise and output order must be insertion order; valid words are supplied to checked and unchecked twins and bytes compared; checked elements inside unchecked parents must still validate, unchecked nodes inside checked trees must be exempt.',
+   note='a checked twin that refuses a valid word is inconclusive here (C02)', ref='7 C18'),
+ 'C19': dict(cat='exploration', tech='exception classifier with call-site attribution, stdout/stderr proxies, sys.monitoring step budget per public call',
+   text='All hostile history profiles on all content models plus a misuse battery on every class (every declared attribute with good/bad values, undeclared names, non-element children, the same child twice, foreign parents, non-children, bare to_string with both flags, values of every Python kind) and wide trees run under the classifier, the stdio proxies and the step budget.',
+   note='documented families per the property text; step budget 3e6 function entries per call', ref='7 C19'),
+ 'C20': dict(cat='exploration', tech='two-thread scheduler on sys.monitoring LINE events: one pre-emption at every executed library line of a first use, each schedule in a child forked from a pristine parent; plus free-running stress',
+   text='For each chosen class, thread A is pre-empted once at every library line of its first use while thread B completes its own first use (same class / class sharing attributes); both results are compared with the single-threaded result from a pristine child. Exhaustive over the one-pre-emption schedule family (stride in quick).',
+   note='covers the schedule family the property names, not all interleavings', ref='7 C20'),
 }
 PENDING = ['C03', 'C04', 'C05', 'C08', 'C09', 'C12', 'C13', 'C14', 'C15', 'C16', 'C17', 'C18', 'C19', 'C20']
 
